@@ -139,7 +139,7 @@ func c06(c *Check) {
 		if !inScope(fn) || len(fn.Blocks) == 0 {
 			continue
 		}
-		for _, cs := range c.P.CallsIn(fn) {
+		for _, cs := range c.P.CallsInOwn(fn) {
 			if c.P.resolveCallee(cs.Ins.Common()) == target {
 				a := c.P.ArgExprs(cs)[2]
 				c.Req(known[a.String()], "C06/privileged-contract-methods", "CallPacket method "+a.String()+" in "+funcName(fn), cs.Ins.Pos(), "known method", "CallPacket invoked with an unlisted method "+a.String()+" from "+funcName(fn))
@@ -165,7 +165,7 @@ func c06(c *Check) {
 		if !inScope(fn) || len(fn.Blocks) == 0 {
 			continue
 		}
-		for _, cs := range c.P.CallsIn(fn) {
+		for _, cs := range c.P.CallsInOwn(fn) {
 			f := c.P.resolveCallee(cs.Ins.Common())
 			if f == nil {
 				continue
